@@ -6,6 +6,7 @@ import subprocess
 
 import vlib
 import steps
+import fcbatch
 from steps import lean_step, tie_H, tie_A, TRUSTED_COMMON
 
 
@@ -59,9 +60,11 @@ def c10(res, thorough):
     base_cov(res, ["memory orders", "FC wait strategies other than backoff", "std::deque / boost deque themselves",
                    "the flat-combining kernel is judged by C23",
                    "Algo/FC/Batch is a hand transcription of FCDeque::fc_process / fc_apply (fixed batch: requests arriving during the walk are not modelled); C10_batch_refines / C10_session_refines / C10_collide_rule are theorems about it; "
-                   "it is tied to the code by the deque client's histories under the elimination variants (every collision the real code performs must be explained by Spec.deque)"],
+                   "it is tied to the code by a differential run (the REAL fc_process / fc_apply / combining pass on hand-built publication lists against `cdsdriver fcbatch`, results, elimination-or-apply flag per record, final content and collision count compared) and by the deque client's histories under the elimination variants"],
              partial=["linearizability of the concurrent FCDeque = batch theorem (proved) + kernel mutual exclusion / exactly-once (proved for the kernel model Algo/FC/Kernel, see C23) + the composition of the two, which is not a Lean theorem and is decided on explored schedules"])
     lean_step(res, "CdsVerif.Props.C10", thorough)       # imports Algo/FC/Batch: the elimination pass and batch application, transcribed from fc_process/fc_apply
+    # tie D for the batch model: real fc_process / fc_apply on hand-built publication lists vs Algo/FC/Batch (cdsdriver fcbatch)
+    fcbatch.fcbatch_check(res, thorough, kinds=["deque"])
     tie_H(res, "deque", hist_runs(thorough, 3, 4, (8, 16), (2500, 30000)), ignore_oracle=FC_ORACLE)
 
 
@@ -85,6 +88,7 @@ def c23(res, thorough):
              partial=["liveness of a deactivated request (only the safety form and the two enabling facts are proved)", "record reclamation clause: not in the kernel model; decided by the quarantining allocator on explored schedules",
                       "kernel model not tied by trace replay"])
     lean_step(res, ["CdsVerif.Props.C23", "CdsVerif.Props.C23Batch", "CdsVerif.Props.C23Kernel"], thorough)
+    fcbatch.fcbatch_check(res, thorough)        # all four containers: deque, queue, stack, priority queue
     n = 12000 if thorough else 1500
     for client, variants in (("queue", ["fcqueue", "fcqueue_elim", "ifcqueue", "ifcqueue_elim"]), ("deque", ["fcdeque_std", "fcdeque_std_elim"]), ("pqueue", ["fcpq"])):
         for v in variants:
@@ -109,7 +113,8 @@ def smr_cov(res, what):
     base_cov(res, ["memory orders and the choice of fence / membarrier in thread_data::sync()", "the TLS manager and cds::threading::Manager",
                    "std::sort / std::binary_search / std::lower_bound are modelled by their contracts",
                    "the interleaving-level argument is a Lean theorem over the protocol machine Algo/HP/Protocol (any H, T, R, every schedule and client program; static thread records, classic scan, "
-                   "retire discipline built into the client operations); that machine is a hand model tied to the code through the scan-decision differential runs and the disposer-time oracle, not by trace replay",
+                   "retire discipline built into the client operations); that machine is tied to the code by TRACE CONFORMANCE (hp_classic variants with static records: every load/store of a hazard slot and of a cell, the retired-array push and the "
+                   "stage-2 decision of the scan with the objects it frees, replayed step by step, with the executable form of C01_guarded_never_disposed evaluated after every step), by the scan-decision differential runs and by the disposer-time oracle",
                    "attach/detach, record reuse, help_scan, in-place marking, DHP block lists: decided on explored schedules by the oracles only"] + what,
              partial=["attach/detach/help_scan and DHP storage growth as part of the proved machine: not modelled"])
     res.cov["rule"] = ("client programs over shared cells (protect / clear / swap-and-retire / scan / detach-reattach / deref) x seeded random, PCT and exhaustive <=1 (thorough <=2) preemption schedules; "
@@ -117,10 +122,22 @@ def smr_cov(res, what):
                        "distinct = distinct (variant, atomic-operation sequence hash); non-trivial = contains a failed CAS or a back-off")
 
 
+def hp_tie(res, thorough):
+    """tie A for the hazard-pointer protocol machine (Algo/HP/Protocol; start state = the machine's own run of the
+    client's prefill, reachability proved in Algo/HP/Replay): static thread records, classic scan, no reattach."""
+    import hp_pre
+    tie_A(res, "smr", "hp",
+          [r for v in ("hp_classic", "hp_classic_odd") for r in (
+              {"args": ["--static", "1", "--mode", "mixed", "--threads", "4", "--ops", "6", "--variant", v], "cases": 4000 if thorough else 400},
+              {"args": ["--static", "1", "--mode", "enum2" if thorough else "enum1", "--threads", "2", "--ops", "3", "--variant", v], "cases": 6 if thorough else 3})],
+          pre=hp_pre.hp_pre)
+
+
 def c01(res, thorough):
     import purespec
     smr_cov(res, [])
-    lean_step(res, ["CdsVerif.Props.C01", "CdsVerif.Props.C01Protocol"], thorough)
+    lean_step(res, ["CdsVerif.Props.C01", "CdsVerif.Props.C01Protocol", "CdsVerif.Algo.HP.Replay"], thorough)
+    hp_tie(res, thorough)
     exe = steps.build_pure("hpscan", ["hpscan.cpp"], with_libcds=True)
     steps.tie_D(res, exe, [str(res.seed), str(6000 if thorough else 600)], ["seqeval"], purespec.compare_seq, "hpscan")
     tie_H(res, "smr", smr_runs(thorough, ["hp_inplace", "hp_classic", "hp_inplace_odd", "hp_classic_odd"]), judged=False, only_oracle=SMR_SAFETY)
@@ -135,7 +152,8 @@ def c02(res, thorough):
 def c03(res, thorough):
     import purespec
     smr_cov(res, ["destruction of the singleton and help_scan adoption: decided by the end-of-case count oracle (every retired object disposed exactly once)"])
-    lean_step(res, ["CdsVerif.Props.C03", "CdsVerif.Props.C01Protocol"], thorough)
+    lean_step(res, ["CdsVerif.Props.C03", "CdsVerif.Props.C01Protocol", "CdsVerif.Algo.HP.Replay"], thorough)
+    hp_tie(res, thorough)
     exe = steps.build_pure("hpscan", ["hpscan.cpp"], with_libcds=True)
     steps.tie_D(res, exe, [str(res.seed + 1), str(6000 if thorough else 600)], ["seqeval"], purespec.compare_seq, "hpscan")
     tie_H(res, "smr", smr_runs(thorough, ["hp_inplace", "hp_classic", "hp_inplace_odd", "hp_classic_odd", "dhp", "dhp_many"]), judged=False, only_oracle=SMR_ONCE)
@@ -191,14 +209,28 @@ def oracle_check(res, thorough, prop, client, mnv, only=None, ignore=None, threa
 
 RCU_SAFETY = r"^(disposed-under-preexisting-reader|disposed-while-referenced|read-returned-disposed|deref-of-disposed|synchronize-returned)"
 RCU_ONCE = r"^(disposed-twice|disposed-but-never-retired|retired-object-disposed|unretired-object-disposed)"
-RCU_MNV = ["the Lean machine Algo/RCU (both general-purpose flavours, any thread count, nesting, buffer capacity and overflow, destruct) is a hand model of gp.h/gpi.h/gpb.h proved for all schedules; "
-           "it is tied to the code by the oracles below on explored schedules - the trace-conformance replay of the RCU machine is not wired yet (the buffer is an atomic bag in the model)",
+RCU_MNV = ["the Lean machine Algo/RCU (both general-purpose flavours, any thread count, nesting, buffer capacity and overflow, destruct) is proved for all schedules and tied to gp.h/gpi.h/gpb.h by TRACE CONFORMANCE: "
+           "every atomic operation on the global control word, the per-thread control words (in the order flip_and_wait visits the thread list), the writers' lock, the epoch counter, "
+           "and one pseudo-event per buffer call (push / pop / size; the buffer itself is the Vyukov queue of C07 wrapped by a tracing buffer) and per disposer call, replayed step by step with values",
+           "replay exclusions (named, not hidden): programs with batch_retire (gpb loads the epoch once for the whole batch; not expressible in the machine); the library's DEFAULT buffer type, whose size() is always 0 "
+           "(VyukovMPMCCycleQueue's default item counter is the empty one), so that the threshold test of push_buffer never fires - the replay uses an item-counting queue, the oracles below also run the default; "
+           "the spin lock's loads between failed exchanges and the second, empty clear_buffer of destruction are dropped by the pre-pass",
            "general_threaded (background disposer thread) and signal_buffered (POSIX signals) need OS primitives that cannot run under the baton: not run; their grace-period core is the same code (gp.h / sh.h share the two-phase flip) ",
            "std::mutex replaced by cds::sync::spin through the template parameter", "the buffer (VyukovMPMCCycleQueue) is judged by C07"]
 
 
+def rcu_tie(res, thorough):
+    from rcu_pre import rcu_pre
+    tie_A(res, "rcu", "rcu", [
+        {"args": ["--tie", "1", "--mode", "mixed", "--threads", "4", "--ops", "5"], "cases": 20000 if thorough else 3000},
+        {"args": ["--tie", "1", "--mode", "mixed", "--threads", "3", "--ops", "5", "--variant", "gpb", "--cap", "1"], "cases": 4000 if thorough else 600},
+        {"args": ["--tie", "1", "--mode", "enum1", "--threads", "3", "--ops", "2"], "cases": 10 if thorough else 4},
+    ], pre=rcu_pre)
+
+
 def c04(res, thorough):
     oracle_check(res, thorough, "C04", "rcu", RCU_MNV, only=RCU_SAFETY, threads=4, ops=5)
+    rcu_tie(res, thorough)
     # the epoch-tag logic of the buffered flavour only matters when a retire lands inside another thread's grace period while a
     # late reader is inside: three roles on different threads - longer programs, random schedules, buffered flavour only
     tie_H(res, "rcu", [{"args": ["--mode", "random", "--threads", "4", "--ops", "6", "--variant", "gpb"], "cases": 250000 if thorough else 30000}], judged=False, only_oracle=RCU_SAFETY)
@@ -207,6 +239,7 @@ def c04(res, thorough):
 
 def c05(res, thorough):
     oracle_check(res, thorough, "C05", "rcu", RCU_MNV, only=RCU_ONCE, threads=4, ops=5)
+    rcu_tie(res, thorough)
     tie_H(res, "rcu", [{"args": ["--mode", "mixed", "--threads", "3", "--ops", "5", "--variant", "gpb", "--cap", "1"], "cases": 8000 if thorough else 800}], judged=False, only_oracle=RCU_ONCE)
 
 
@@ -241,7 +274,18 @@ def c21(res, thorough):
 
 
 def c24(res, thorough):
-    oracle_check(res, thorough, "C24", "pool", ["bounded pool: programs keep outstanding allocations within capacity by construction, the *x variants accept bad_alloc"], threads=4, ops=6)
+    base_cov(res, ["memory orders", "back-off timing",
+                   "Algo/Pool: Lean machine of vyukov_queue_pool / lazy_vyukov_queue_pool / bounded_vyukov_queue_pool (pool_allocator only forwards) over an ABSTRACT bounded FIFO whose push/pop are atomic: "
+                   "that is what C07 proves of the real Vyukov queue (linearizability, all schedules) and ties to the code by trace conformance; the composition (pool over a linearizable queue behaves like pool over an atomic queue) is the standard "
+                   "linearizability argument and is not itself a Lean theorem",
+                   "theorems over all schedules, thread counts and capacities: no object has two holders, what allocate returns is held by nobody / not freed / not inside a deallocate, a completed deallocate leaves the object in the free queue (or deletes a heap object / lazy overflow), "
+                   "block objects are never deleted, and every completing step of the machine is a legal step of Spec.pool (C24_machine_refines_spec)",
+                   "tie: the histories of the real pools are judged against Spec.pool by the verified linearizability checker (an allocation returns the OLDEST free object and goes to the heap / fails only when the free queue is empty, started from the free queue as read from the real ring after the warm-up), "
+                   "plus the client's ownership / marker / destructor oracles",
+                   "bounded pool: programs keep outstanding allocations within capacity by construction, the *x variants accept bad_alloc"],
+             partial=["composition pool-machine + Vyukov machine as one Lean theorem: not proved (argued by linearizability)"])
+    lean_step(res, ["CdsVerif.Props.C24", "CdsVerif.Props.C24Pool"], thorough)
+    tie_H(res, "pool", hist_runs(thorough, 4, 6, (10, 20), (3000, 40000)))
 
 
 def c18(res, thorough):
@@ -455,7 +499,7 @@ TABLE = {
     "C08": ("exploration", c08),
     "C12": ("proof", c12),
     "C21": ("proof", c21),
-    "C24": ("exploration", c24),
+    "C24": ("proof", c24),
     "C13": ("translation_validation", c13),
     "C14": ("translation_validation", c14),
     "C15": ("translation_validation", c15),
